@@ -864,10 +864,11 @@ func goNull(v reflect.Value) bool {
 	}
 }
 
-// daysSinceEpoch mirrors the library's DATE conversion of time.Time
-// (convert.go daysSinceUnixEpoch): whole hours since the epoch divided by 24.
+// daysSinceEpoch: the DATE value of a time.Time (convert.go
+// daysSinceUnixEpoch): whole hours since the epoch divided by 24, truncated
+// towards zero, computed from the Unix seconds (no 292-year saturation).
 func daysSinceEpoch(t time.Time) int32 {
-	return int32(int(t.Sub(time.Unix(0, 0).UTC()).Hours()) / 24)
+	return int32(int(t.Unix()/3600) / 24)
 }
 
 // jsonBytes is the documented encoding of a Go value in a JSON column:
